@@ -311,6 +311,24 @@ def run(res):
                 "try: pass\nexcept* E: pass", "assert x", "import a", "from a import b", "global x", "nonlocal x", "break", "continue", "async def f(): pass", "async for x in y: pass",
                 "async with x: pass", "type X = int", "a and b", "a := b", "(a := b)", "a + b", "-a", "lambda: 0", "a if b else c", "{a: b}", "{a}", "[a for a in b]", "{a for a in b}",
                 "{a: b for a in c}", "(a for a in b)", "await a", "yield", "yield a", "yield from a", "a < b", "f(a)", "a.b", "a[b]", "*a", "*a, b", "[a]", "(a, b)", "a[b:c]", "a,", "(", ")", "x = (", "'", "f'{", "\\", "\t x", "  x", "x\n  y", "é = 1", "﻿x", "x\r\ny\r", "1 +", "def", "lambda", "@", "x $ y"]
+    # errors raised by the nested parsers (string escapes, f-string fields in every variant): their offsets are
+    # computed apart from the main lexer's
+    bad_exprs = ["a b", "(", "a +", "1 2", "a b c", ")", "lambda", "x y=1", "*", "a $", "'", "a:=", "{", "é ü"]
+    shapes = ["{%s}", "{%s=}", "{%s = }", "{%s!r}", "{%s=!r}", "{%s:>10}", "{%s=:>{w}}", "{x:{%s}}", "{x=:{%s}}", "{x!r:{%s=}}", "{x}{%s}", "{{}}{%s=}", "{'q'}{%s=}", "{x:{w}}{%s}"]
+    prefixes = ["", "x = ", "é = 1\ny = ", "# c\r\n", "if a:\n    z = ", "'lit' ", "b = (\n  "]
+    fbad = ["f'{}'", "f'{x'", "f'{x:{'", "f'{=}'", "f'}'", "f'{x!z}'", "f'{x!}'", "f'{x!rr}'", "f'{x:{y:{z}}}'", "f'{a\\b}'", "'\\N{x}'", "'\\x4'", "'\\u12'", "b'é'", "'a' b'b'",
+            "f'{x}' b'b'", "f'''{\na b\n}'''", "f'{x' 'y'", "u'a' f'{a b=}'", "'\\U00110000'", "f'{x:\\N{nope}}'", "f'\\N{nope}{x}'"]
+    k = 0
+    for e in bad_exprs:
+        for sh in shapes:
+            k += 1
+            q = rng.choice(["'", '"', "'" * 3, '"' * 3])
+            if q[0] in e or q[0] in sh:
+                q = '"' * 3 if "'" in (e + sh) else "'"
+            texts.append(("fbad:%d" % k, rng.choice(prefixes) + rng.choice(["f", "F", "rf", "fR"]) + q + rng.choice(["", "ab ", "é{{"]) + sh % e + rng.choice(["", " z", "{y}"]) + q + rng.choice(["", "\n"])))
+    for i, t in enumerate(fbad):
+        for pre in prefixes[:4]:
+            texts.append(("fbad-directed:%d" % i, pre + t))
     for i, s in enumerate(directed):
         texts.append(("directed:%d" % i, s))
     items = [(tag, s, res.seed) for tag, s in texts]
